@@ -362,7 +362,7 @@ def _w_leak():
 def _w_rrr():
     h = Hist("w_run_runcode_run")
     h.inv("RN", 0, ("L", 5))
-    h.inv("RC", 0, ("L", 6))
+    h.inv("RC", 0, ("N", 3, ("L", 6)))
     h.inv("RN", 0, ("L", 7))
     return h
 
@@ -485,10 +485,14 @@ def _body(res, tier, obs, model, work, proved):
     corr_diffs = []
     nontrivial = set()
     unpredicted = 0
+    skipped = 0
     settle_to = 0
     outcome_hist = {}
     samples = []
     for h in hs:
+        if impl[h.id].startswith("SKIPPED"):
+            skipped += 1
+            continue
         iparts = [p.split("|") for p in impl[h.id].split(";")] if impl[h.id] else []
         mparts = [p.split("|") for p in mod[h.id].split(";")] if mod[h.id] else []
         invs = [it for it in h.items if it[0] == "inv"]
@@ -556,7 +560,8 @@ def _body(res, tier, obs, model, work, proved):
                    "earlier abnormal end or a stale cancellation in play." % (len(enumerate_pairs(C.Rng(1))), max(nrand)))
     cov["samples"] = samples
     cov["correspondence"] = {"invocations": evals, "differences": len(corr_diffs), "model_unpredicted_after_wild": unpredicted,
-                             "settle_timeouts": settle_to}
+                             "settle_timeouts": settle_to,
+                             "histories_skipped_after_a_hang": skipped}
     cov["input_distribution"] = {"histories": len(hs), "outcomes_on_shared_vm": outcome_hist}
     cov["witness_predictions_before_repairs"] = pre
     cov["witness_on_implementation"] = {n: _short(impl[n]) for n, _ in WITNESSES}
@@ -568,6 +573,12 @@ def _body(res, tier, obs, model, work, proved):
         "Run() is exercised with the REPL's protocol of cmd/risor/repl (one compiler, code appended, SetIP after an error)",
         "script-level globals are not carried between invocations by RunCode; the 'current values of global variables' are host globals",
     ]
+    # the refutation witness of the code as it is must still reproduce, otherwise the model is out of date
+    wparts = [p.split("|") for p in impl["w_run_runcode_run"].split(";")]
+    if len(wparts) == 3 and wparts[2][0] == wparts[2][2] and wparts[2][1] == wparts[2][3]:
+        corr_diffs.append({"history": "w_run_runcode_run", "impl": impl["w_run_runcode_run"],
+                           "why": "the witness of C07_refuted_run_after_runcode no longer differs from a new VM on the implementation: "
+                                  "the defect seems repaired, the model (OWild) and known_findings.c.jsonl are out of date"})
     known = load_known_c()
     for cls, vs in known_hits.items():
         match = [kf for kf in known if kf.get("id") == cls]
